@@ -83,6 +83,13 @@ func SelfTestValue(v Value, bound int) error {
 			}
 		}
 	}
+	for _, name := range Presets {
+		l := Preset(v, name)
+		got, err := Decode(l.Segments)
+		if err != nil || !Identical(got, l.Decoded) || ValueEqual(got, v) != VEqual {
+			return fmt.Errorf("preset %s of %s: Decode = %s, %v; layout says %s\n%s", name, v, got, err, l.Decoded, HexSegments(l.Segments))
+		}
+	}
 	// the default layout is what a conforming writer emits
 	rep, err := Validate(ls[0].Segments)
 	if err != nil {
